@@ -214,11 +214,11 @@ fn drain_closure<C: FnMut(Event<T>, &mut ())>(capacity: usize, receiver: &mpsc::
     (clear_readiness, disconnected)
 //@ endslice
 
-//@ slice src/sources/channel.rs / impl EventSource for Channel<T> / fn process_events :: stmts <<if disconnected {>> .. <<if disconnected {>> props=C04,C02,C12 name=Channel::process_events::post_drain
+//@ slice src/sources/channel.rs / impl EventSource for Channel<T> / fn process_events :: after <<.map_err(ChannelError)?;>> props=C04,C02,C12 name=Channel::process_events::post_drain
 //@ sig
-/// S1 slice: the last statement of Channel::process_events (what happens after the drain). Free variables
+/// S1 slice: everything after the statement that drains the queue (what happens after the drain). Free variables
 /// `disconnected`, `clear_readiness`, `action` (the PingSource's own post-action) become parameters.
-fn post_drain(&mut self, disconnected: bool, clear_readiness: bool, action: PostAction) -> (r: Result<PostAction, ChannelError>)
+fn post_drain(&mut self, disconnected: bool, clear_readiness: bool, mut action: PostAction) -> (r: Result<PostAction, ChannelError>)
 //@ spec
     requires
         forall|f: int, c: u64| #[trigger] crate::sources::ping::eventfd::may_send(f, c) <==> (f == old(self).ping.raw() && c == 2),
